@@ -4,3 +4,4 @@ pub mod c11;
 pub mod c03;
 pub mod c08;
 pub mod c02;
+pub mod c12;
